@@ -44,6 +44,11 @@ CHECKS.update({
              text="TLC checks Refuse/RefuseFrame (IncompatibleSchemaVersion and an untouched layout iff version != 2, for Project, get_project, get_project from a sub-directory, init_project), MigratePreserves, CollisionLeavesJobs, UpToDateNoop, SecondNoop, OpensAfterwards and JobsNeverLost in every intermediate state of the chain, over versions {absent,0,1,2,3,10} x config location x project names x workspace_dir kinds x cache/history files x job counts; each case is materialised and executed for real, then a second migration and a fresh Project compare ids, state points, documents, files and the project document.",
              note="trusted: TLC; INI text written by the harness is cross-checked against the vendored configobj at start; only final states of the migration chain are observed on the real code (intermediate states on the spec); absolute / environment-variable workspace_dir values are not modelled", ref="5 C20, 10"),
 })
+CHECKS.update({
+ "C12": dict(technique="explicit TLA+ model of several processes running Project() / init / document write / read / listing as file-system-call steps on contended paths (spec/lifecycle/Concurrent.tla); TLC explores ALL interleavings; every edge of the state graph executed as a controlled schedule over forked real signac processes gated at each fs step (harness/sched.py), with step label, step outcome and on-disk state compared at every step",
+             text="TLC checks NoActorError, NoTornObservation, ReadsSeeCompletedWrites, FinalSequential, ListingSane over 13 built-in scenarios (same / different jobs, empty / populated workspace, a pre-opened Project while the workspace is created, document writers on different jobs with readers; 2 actors exhaustively, 3 actors exhaustively in TLC and by sampled schedules on the code) and must FIND the expected violation on six deliberately broken protocol variants. Schedules generated from the state graph are run with real processes; actor errors, torn or stale reads, the final check(), job set, documents and litter are judged from observation.",
+             note="trusted: TLC; the gating shim (step sequence audited against strace); rename(2) atomicity; files are written with one write() call (partial prefixes are C10's matter); same-document read-modify-write races are outside the property; the cache and config files are not gated (no actor writes them)", ref="5 C12, 10", engine="tlc+sched"),
+})
 def main():
     checks = []
     for pid, c in CHECKS.items():
@@ -63,7 +68,7 @@ def main():
         "version": 1,
         "setup_cmd": "cd /verif && ./setup.sh",
         "hooks": {"guard": "SIGNAC_VERIF", "enable": "export SIGNAC_VERIF=1 (set by ./check): activates the out-of-tree recorder / file-system shim in /verif/harness; signac sources carry no hook", "baseline_off_cmd": "cd /repo && env -u SIGNAC_VERIF /venv/bin/python -m pytest -ra -q -p no:cacheprovider --timeout=900 --continue-on-collection-errors", "source_commits": [], "add_only": True},
-        "engines": [{"name": "tlc+fsshim", "path": "/verif/harness/fsshim.py", "serves_properties": ["C10", "C11"], "kind_free_text": "in-process interposition on the file-system entry points (record / crash@k freeze / torn@k,p / fail@k,errno) driving fault scripts generated by TLC"}, {"name": "tlc+replay", "path": "/verif/harness", "serves_properties": sorted(CHECKS), "kind_free_text": "explicit TLA+ specifications under /verif/spec checked with TLC; bound to the code by replaying TLC-generated cases/behaviours into signac and by validating recorded executions of signac against the specification"}],
+        "engines": [{"name": "tlc+sched", "path": "/verif/harness/sched.py", "serves_properties": ["C12"], "kind_free_text": "forked real actor processes whose file-system steps on contended paths are granted one at a time by a controller following schedules derived from TLC state graphs"}, {"name": "tlc+fsshim", "path": "/verif/harness/fsshim.py", "serves_properties": ["C10", "C11"], "kind_free_text": "in-process interposition on the file-system entry points (record / crash@k freeze / torn@k,p / fail@k,errno) driving fault scripts generated by TLC"}, {"name": "tlc+replay", "path": "/verif/harness", "serves_properties": sorted(CHECKS), "kind_free_text": "explicit TLA+ specifications under /verif/spec checked with TLC; bound to the code by replaying TLC-generated cases/behaviours into signac and by validating recorded executions of signac against the specification"}],
         "checks": checks,
         "not_applicable": na,
         "notes": "Every check: ./check <ID> --tier quick|thorough. Exit 0 held / 1 VIOLATION / 2 machinery failure. Known findings: /verif/known_findings.json.",
